@@ -31,8 +31,14 @@ pub enum PortSel {
 
 #[derive(Clone, Debug, Serialize, Deserialize)]
 pub enum Op {
+    /// bind on the wildcard address (0.0.0.0 / ::)
     BindUdp(PortSel),
     BindTcp(PortSel),
+    /// the same binds on the loopback address (127.0.0.1 / ::1): the bind address is a
+    /// dimension of its own -- a port bound at ANY address of the host is in use for that
+    /// protocol, in both orders (wildcard then loopback, loopback then wildcard)
+    BindUdpLo(PortSel),
+    BindTcpLo(PortSel),
     /// outgoing connect to the peer's listener (takes an ephemeral local port)
     Connect,
     /// outgoing connect to a port nobody listens on
@@ -75,6 +81,8 @@ impl Sock {
 enum K {
     Udp,
     Lis,
+    /// listener bound on the loopback address: not reachable by the peer, only through loopback
+    LisLo,
     Stream,
     /// accepted from the peer (the peer holds an ephemeral port of its own for it)
     Accepted,
@@ -97,6 +105,11 @@ struct PState {
     last_eph: Option<u16>,
     expecting_free: bool,
     ops_done: u64,
+    /// explicit binds attempted on a port in use for that protocol, by (address of the live
+    /// socket, address asked for): [any-any, any-lo, lo-any, lo-lo]
+    rebind: [u64; 4],
+    /// parallel to `socks`: the socket was bound on the loopback address (UDP / listeners only)
+    lo: Vec<bool>,
     crashes: u64,
     refused: u64,
     loopback: u64,
@@ -115,7 +128,7 @@ fn in_use(st: &PState) -> (BTreeSet<u16>, BTreeSet<u16>, BTreeSet<u16>) {
             (K::Udp, p) => {
                 udp.insert(*p);
             }
-            (K::Lis, p) => {
+            (K::Lis, p) | (K::LisLo, p) => {
                 lis.insert(*p);
             }
             (K::Stream, p) | (K::Accepted, p) | (K::LoopAccepted, p) => {
@@ -167,6 +180,7 @@ fn note_ephemeral(st: &mut PState, port: u16, range_len: u16, what: &str) {
 
 async fn port_host(sh: Rc<RefCell<PState>>, range_len: u16, v6: bool) -> turmoil::Result {
     let any = if v6 { "::" } else { "0.0.0.0" };
+    let lo_ip = if v6 { "::1" } else { "127.0.0.1" };
     // the sockets are owned by this task, so a crash drops them
     let mut mine: Vec<Sock> = Vec::new();
     loop {
@@ -193,76 +207,71 @@ async fn port_host(sh: Rc<RefCell<PState>>, range_len: u16, v6: bool) -> turmoil
             }
         };
         match op {
-            Op::BindUdp(ps) => {
-                let want = sel_port(&ps);
+            Op::BindUdp(ref ps) | Op::BindUdpLo(ref ps) | Op::BindTcp(ref ps) | Op::BindTcpLo(ref ps) => {
+                let udp = matches!(op, Op::BindUdp(_) | Op::BindUdpLo(_));
+                let lo = matches!(op, Op::BindUdpLo(_) | Op::BindTcpLo(_));
+                let (w, wl) = if udp { ("udp-bind", "udp") } else { ("tcp-listen", "listeners") };
+                let ip = if lo { lo_ip } else { any };
+                let want = sel_port(ps);
                 if want == 0 && free_ports(&sh.borrow(), range_len).is_empty() {
                     continue; // exhaustion is a documented panic; not generated
                 }
                 sh.borrow_mut().expecting_free = want == 0;
-                let r = UdpSocket::bind((any, want)).await;
+                let r = if udp {
+                    UdpSocket::bind((ip, want)).await.map(|s| (s.local_addr().unwrap(), Sock::Udp(s, 0)))
+                } else {
+                    TcpListener::bind((ip, want)).await.map(|s| (s.local_addr().unwrap(), Sock::Lis(s, 0)))
+                };
                 let mut st = sh.borrow_mut();
                 st.expecting_free = false;
                 st.ops_done += 1;
-                let (u, _, _) = in_use(&st);
+                // the port space of this protocol: ports bound by a live socket at ANY address
+                let (u, l, _) = in_use(&st);
+                let used = if udp { u } else { l };
+                // who holds the port now (address class of the live socket), for the detail text
+                let holder = |st: &PState| -> Option<bool> {
+                    (0..st.socks.len()).find(|j| st.socks[*j].1 == want && (if udp { st.socks[*j].0 == K::Udp } else { matches!(st.socks[*j].0, K::Lis | K::LisLo) })).map(|j| st.lo[j])
+                };
+                let cls = |b: bool| if b { "loopback" } else { "wildcard" };
+                let held = holder(&st);
+                if want != 0 {
+                    if let Some(h) = held {
+                        st.rebind[(h as usize) * 2 + lo as usize] += 1;
+                    }
+                }
                 match r {
-                    Ok(s) => {
-                        let p = s.local_addr().unwrap().port();
-                        if want == 0 {
-                            note_ephemeral(&mut st, p, range_len, "udp-bind");
-                        } else if p != want {
-                            st.fail.get_or_insert(("udp-bind-wrong-port".into(), format!("asked {want}, got {p}")));
-                        } else if u.contains(&want) {
-                            st.fail.get_or_insert(("udp-bind-succeeded-on-port-in-use".into(), format!("port {want}; udp {u:?}")));
+                    Ok((la, s)) => {
+                        let p = la.port();
+                        if la.ip().is_loopback() != lo || la.ip().is_unspecified() == lo {
+                            st.fail.get_or_insert((format!("{w}-local-address-differs-from-bind-address"), format!("bound {ip}:{want}, local_addr {la}")));
                         }
-                        st.socks.push((K::Udp, p));
+                        if want == 0 {
+                            note_ephemeral(&mut st, p, range_len, w);
+                        } else if p != want {
+                            st.fail.get_or_insert((format!("{w}-wrong-port"), format!("asked {want}, got {p}")));
+                        } else if used.contains(&want) {
+                            st.fail.get_or_insert((
+                                format!("{w}-succeeded-on-port-in-use"),
+                                format!("port {want} bound on the {} address while a live socket holds it on the {} address; {wl} {used:?}", cls(lo), held.map(cls).unwrap_or("?")),
+                            ));
+                        }
+                        st.socks.push((if udp { K::Udp } else if lo { K::LisLo } else { K::Lis }, p));
                         st.pair.push(0);
-                        mine.push(Sock::Udp(s, p));
+                        st.lo.push(lo);
+                        mine.push(match s {
+                            Sock::Udp(s, _) => Sock::Udp(s, p),
+                            Sock::Lis(s, _) => Sock::Lis(s, p),
+                            s => s,
+                        });
                     }
                     Err(e) => {
                         let k = e.kind();
                         if want == 0 {
-                            st.fail.get_or_insert(("udp-bind-zero-failed".into(), format!("{k:?}")));
-                        } else if !u.contains(&want) {
-                            st.fail.get_or_insert(("udp-bind-failed-on-free-port".into(), format!("port {want}: {k:?}; udp {u:?}")));
+                            st.fail.get_or_insert((format!("{w}-zero-failed"), format!("{k:?}")));
+                        } else if !used.contains(&want) {
+                            st.fail.get_or_insert((format!("{w}-failed-on-free-port"), format!("port {want} ({} address): {k:?}; {wl} {used:?}", cls(lo))));
                         } else if k != std::io::ErrorKind::AddrInUse {
-                            st.fail.get_or_insert(("udp-bind-in-use-wrong-error-kind".into(), format!("port {want}: {k:?}")));
-                        }
-                    }
-                }
-            }
-            Op::BindTcp(ps) => {
-                let want = sel_port(&ps);
-                if want == 0 && free_ports(&sh.borrow(), range_len).is_empty() {
-                    continue;
-                }
-                sh.borrow_mut().expecting_free = want == 0;
-                let r = TcpListener::bind((any, want)).await;
-                let mut st = sh.borrow_mut();
-                st.expecting_free = false;
-                st.ops_done += 1;
-                let (_, l, _) = in_use(&st);
-                match r {
-                    Ok(s) => {
-                        let p = s.local_addr().unwrap().port();
-                        if want == 0 {
-                            note_ephemeral(&mut st, p, range_len, "tcp-listen");
-                        } else if p != want {
-                            st.fail.get_or_insert(("tcp-listen-wrong-port".into(), format!("asked {want}, got {p}")));
-                        } else if l.contains(&want) {
-                            st.fail.get_or_insert(("tcp-listen-succeeded-on-port-in-use".into(), format!("port {want}; listeners {l:?}")));
-                        }
-                        st.socks.push((K::Lis, p));
-                        st.pair.push(0);
-                        mine.push(Sock::Lis(s, p));
-                    }
-                    Err(e) => {
-                        let k = e.kind();
-                        if want == 0 {
-                            st.fail.get_or_insert(("tcp-listen-zero-failed".into(), format!("{k:?}")));
-                        } else if !l.contains(&want) {
-                            st.fail.get_or_insert(("tcp-listen-failed-on-free-port".into(), format!("port {want}: {k:?}; listeners {l:?}")));
-                        } else if k != std::io::ErrorKind::AddrInUse {
-                            st.fail.get_or_insert(("tcp-listen-in-use-wrong-error-kind".into(), format!("port {want}: {k:?}")));
+                            st.fail.get_or_insert((format!("{w}-in-use-wrong-error-kind"), format!("port {want}: {k:?}")));
                         }
                     }
                 }
@@ -282,6 +291,7 @@ async fn port_host(sh: Rc<RefCell<PState>>, range_len: u16, v6: bool) -> turmoil
                         note_ephemeral(&mut st, p, range_len, "tcp-connect");
                         st.socks.push((K::Stream, p));
                         st.pair.push(0);
+                        st.lo.push(false);
                         mine.push(Sock::Stream(s, p));
                     }
                     Err(e) => {
@@ -354,6 +364,7 @@ async fn port_host(sh: Rc<RefCell<PState>>, range_len: u16, v6: bool) -> turmoil
                         }
                         st.socks.push((K::Accepted, lp));
                         st.pair.push(0);
+                        st.lo.push(false);
                         mine.push(Sock::Stream(s, lp));
                     }
                     Ok(Err(e)) => {
@@ -367,7 +378,7 @@ async fn port_host(sh: Rc<RefCell<PState>>, range_len: u16, v6: bool) -> turmoil
             Op::ConnectLoopback(i) => {
                 let target = {
                     let st = sh.borrow();
-                    let ls: Vec<usize> = st.socks.iter().enumerate().filter(|(_, s)| s.0 == K::Lis).map(|(k, _)| k).collect();
+                    let ls: Vec<usize> = st.socks.iter().enumerate().filter(|(_, s)| matches!(s.0, K::Lis | K::LisLo)).map(|(k, _)| k).collect();
                     if ls.is_empty() || free_ports(&st, range_len).is_empty() {
                         None
                     } else {
@@ -377,7 +388,7 @@ async fn port_host(sh: Rc<RefCell<PState>>, range_len: u16, v6: bool) -> turmoil
                 let Some(idx) = target else { continue };
                 let port = mine[idx].port();
                 sh.borrow_mut().expecting_free = true;
-                let lo = if v6 { "::1" } else { "127.0.0.1" };
+                let lo = lo_ip;
                 let (c, a) = match &mine[idx] {
                     Sock::Lis(l, _) => tokio::join!(TcpStream::connect((lo, port)), tokio::time::timeout(Duration::from_millis(50), l.accept())),
                     _ => unreachable!(),
@@ -396,9 +407,11 @@ async fn port_host(sh: Rc<RefCell<PState>>, range_len: u16, v6: bool) -> turmoil
                         let id = st.loopback as u32;
                         st.socks.push((K::Stream, p));
                         st.pair.push(id);
+                        st.lo.push(false);
                         mine.push(Sock::Stream(cs, p));
                         st.socks.push((K::LoopAccepted, port));
                         st.pair.push(id);
+                        st.lo.push(false);
                         mine.push(Sock::Stream(as_, port));
                     }
                     (c, a) => {
@@ -422,6 +435,7 @@ async fn port_host(sh: Rc<RefCell<PState>>, range_len: u16, v6: bool) -> turmoil
                 for j in victims.into_iter().rev() {
                     st.socks.remove(j);
                     st.pair.remove(j);
+                    st.lo.remove(j);
                     dropped.push(mine.remove(j));
                 }
                 drop(st);
@@ -544,6 +558,7 @@ pub fn run_ports(sc: &PortScenario) -> Outcome {
                 let mut st = sh.borrow_mut();
                 st.socks.clear();
                 st.pair.clear();
+                st.lo.clear();
                 st.crashes += 1;
                 st.idle = false;
             }
@@ -579,6 +594,12 @@ pub fn run_ports(sc: &PortScenario) -> Outcome {
     if st.loopback > 0 {
         out.label("loopback-stream");
     }
+    for (k, name) in ["wildcard-then-wildcard", "wildcard-then-loopback", "loopback-then-wildcard", "loopback-then-loopback"].iter().enumerate() {
+        if st.rebind[k] > 0 {
+            out.label(&format!("rebind-of-port-in-use:{name}"));
+        }
+    }
+    out.count("explicit binds of a port in use (any address pair)", st.rebind.iter().sum());
     out.count("port ops executed", st.ops_done);
     out.nontrivial = st.wraps >= 1 && st.skipped_in_use >= 1;
     drop(st);
@@ -847,10 +868,12 @@ pub fn port_strategy() -> BoxedStrategy<PortScenario> {
     (3u16..=8, any::<bool>(), any::<u64>())
         .prop_flat_map(|(range_len, v6, seed)| {
             let off = -2i16..(range_len as i16 + 2);
-            let psel = prop_oneof![3 => Just(PortSel::Zero), 2 => off.prop_map(PortSel::Off)];
+            let psel = prop_oneof![1 => Just(PortSel::Zero), 1 => off.prop_map(PortSel::Off)];
             let op = prop_oneof![
-                4 => psel.clone().prop_map(Op::BindUdp),
-                4 => psel.prop_map(Op::BindTcp),
+                3 => psel.clone().prop_map(Op::BindUdp),
+                3 => psel.clone().prop_map(Op::BindTcp),
+                2 => psel.clone().prop_map(Op::BindUdpLo),
+                2 => psel.prop_map(Op::BindTcpLo),
                 3 => Just(Op::Connect),
                 1 => Just(Op::ConnectRefused),
                 1 => Just(Op::ConnectNowhere),
@@ -926,7 +949,7 @@ pub fn fuzz_sanitize(sc: &mut PortScenario) -> bool {
     sc.range_len = 3 + sc.range_len % 6;
     let r = sc.range_len as i16;
     for o in sc.ops.iter_mut() {
-        if let Op::BindUdp(PortSel::Off(x)) | Op::BindTcp(PortSel::Off(x)) = o {
+        if let Op::BindUdp(PortSel::Off(x)) | Op::BindTcp(PortSel::Off(x)) | Op::BindUdpLo(PortSel::Off(x)) | Op::BindTcpLo(PortSel::Off(x)) = o {
             *x = -2 + x.rem_euclid(r + 4);
         }
     }
@@ -940,8 +963,10 @@ fn check(tier: Tier, seed: u64) -> i32 {
     ctx.random("dns", tier.pick(3_000, 40_000), &|| dns_strategy(), &run_dns);
     ctx.random("dns-lookup-heavy", tier.pick(600, 8_000), &|| dns_heavy_strategy(), &run_dns);
     ctx.finish(
-        "ports: random sequences of 4-40 operations (bind UDP / TCP listener on port 0 or a fixed port around the range, outgoing connect, connects that are refused / go nowhere / are cancelled, accept from the peer, drop, crash+bounce) on a host whose ephemeral range has 3-8 ports, checked against a port-set model; non-trivial = the ephemeral cursor wrapped at least once and skipped at least one port in use. dns: random sequences of register / lookup / literal / reverse / regex lookups over up to 600 names in v4 and v6 mode against a name->address map; non-trivial = >= 8 names known, some registered and some only looked up. dns-lookup-heavy: a block of 40-400 names is made known, then 1-4 phases of 0-70 000 repeated by-name lookups of the known names (as &str / String, mixed with literal-address, reverse and regex lookups; every result compared with the map) alternate with runs of 5-60 new names (registered or looked up) separated by short repeat bursts; the total number of by-name lookups exceeds the 65 536 host numbers of the v4 subnet in a fraction of the cases; distinctness is checked at every first sight of a name, stability at every lookup, stability + reverse inversion over all names at the end. Distinct by scenario hash.",
+        "ports: random sequences of 4-40 operations (bind UDP / TCP listener on port 0 or a fixed port around the range, each on the wildcard address or on the loopback address -- so explicit binds hit ports held by a live socket of the same protocol in all four address orders wildcard/loopback x first/second, labels rebind-of-port-in-use:* --, outgoing connect, connects that are refused / go nowhere / are cancelled, accept from the peer, drop, crash+bounce) on a host whose ephemeral range has 3-8 ports, checked against a port-set model; non-trivial = the ephemeral cursor wrapped at least once and skipped at least one port in use. dns: random sequences of register / lookup / literal / reverse / regex lookups over up to 600 names in v4 and v6 mode against a name->address map; non-trivial = >= 8 names known, some registered and some only looked up. dns-lookup-heavy: a block of 40-400 names is made known, then 1-4 phases of 0-70 000 repeated by-name lookups of the known names (as &str / String, mixed with literal-address, reverse and regex lookups; every result compared with the map) alternate with runs of 5-60 new names (registered or looked up) separated by short repeat bursts; the total number of by-name lookups exceeds the 65 536 host numbers of the v4 subnet in a fraction of the cases; distinctness is checked at every first sight of a name, stability at every lookup, stability + reverse inversion over all names at the end. Distinct by scenario hash.",
         &[
+            "a port bound by a live UDP socket (TCP listener) at any address of the host -- wildcard or loopback -- counts as in use for UDP (TCP listeners) on that host: an explicit bind of it at either address must fail with AddrInUse, as the property text says without qualification by address",
+            "the peer only connects to listeners bound on the wildcard address; loopback-bound listeners are reached through loopback connects only",
             "port 0 requests are only issued while the model has a free port in the range (exhaustion is a documented panic)",
             "registering the same name twice is a documented panic and is not generated",
             "at most a few hundred distinct names per simulation (the property's quantifier), so the subnet itself is never exhausted by names; lookups of known names are not counted against it (they are promised to change nothing)",
